@@ -1,14 +1,14 @@
-\* variant: a worker's [re-check, Add, callback, Protect] and Discard exclude each other
+\* variant Serialized, thorough: two workers
 SPECIFICATION Spec
 CONSTANTS
   Peers = {"p1", "p2"}
   Self = "self"
-  Limit = 1
-  Workers = {"w1"}
+  Limit = 2
+  Workers = {"w1", "w2"}
   Callers = {}
   Delay = 1
-  MaxRounds = 3
-  MaxDrops = 2
+  MaxRounds = 2
+  MaxDrops = 1
   MaxInbound = 1
   MaxFail = 0
   MaxCalls = 0
